@@ -308,7 +308,18 @@ class Fish:
     kind: str = field(default="fish", metadata=alias("type"))
     x: int = 0
 
+@dataclass
+class WithRest:
+    x: int = 0
+    rest: Dict[str, int] = field(default_factory=dict, metadata=properties)
+@dataclass
+class WithPat:
+    x: int = 0
+    pat: Dict[str, Any] = field(default_factory=dict, metadata=properties(pattern="^t"))
+
 Default = Annotated[Union[Cat, Dog], discriminator("type")]
+RestU = Annotated[Union[Cat, WithRest], discriminator("type")]
+PatU = Annotated[Union[Cat, WithPat], discriminator("type")]
 Explicit = Annotated[Union[Cat, Dog], discriminator("type", {"c": Cat, "d": Dog})]
 Partial = Annotated[Union[Cat, Dog], discriminator("type", {"c": Cat})]
 NoOverride = Annotated[Union[Cat, Dog], discriminator("type", {"c": Cat}, override_implicit=False)]
@@ -343,6 +354,8 @@ class Tagged1(TaggedUnion):
 # expectations: name -> (union type, mapping key -> alternative class, declares_field set)
 EXPECT = {
     "Default": (Default, "type", {"Cat": Cat, "Dog": Dog}, set()),
+    "RestU": (RestU, "type", {"Cat": Cat, "WithRest": WithRest}, set()),
+    "PatU": (PatU, "type", {"Cat": Cat, "WithPat": WithPat}, set()),
     "Explicit": (Explicit, "type", {"c": Cat, "d": Dog}, set()),
     "Partial": (Partial, "type", {"c": Cat, "Dog": Dog}, set()),
     "NoOverride": (NoOverride, "type", {"c": Cat, "Cat": Cat, "Dog": Dog}, set()),
